@@ -445,6 +445,16 @@ func init() { vfRegister("VF_C04_tag_yaml", VF_C04_tag_yaml) }
 // name and an optional int priority that is kept unchanged.
 func VF_C04_tag_yaml() {
 	v := vfAny("tag", 2)
+	if vfBool("structured") {
+		m := map[string]interface{}{}
+		if vfBool("has.name") {
+			m["name"] = vfAny("name", 0)
+		}
+		if vfBool("has.priority") {
+			m["priority"] = vfAny("priority", 0)
+		}
+		v = m
+	}
 	var t Tag
 	err := t.UnmarshalYAML(func(p interface{}) error {
 		*(p.(*interface{})) = v
